@@ -438,9 +438,11 @@ ConvergedModDev == sync => \A d \in Docs : Promised(d) => (SameView(d) \/ d \in 
 LiveLeaves(p, d) == {r \in LeavesIn(revs, d, doc[p][d].tree) : ~Info(d, r).del}
 SingleWinner == proto = "v3" => \A p \in Peers, d \in Docs : Cardinality(LiveLeaves(p, d)) <= 1
 (* re-running a caught-up replication transfers no revisions: nothing is requested for a document on which the peers
-   agree, and nothing changes *)
+   agree, and no document on which convergence is promised changes.  (One direction only: a document the environment wrote
+   on the target side is outside the promise - the target may have changed since the source's revision was rejected, and
+   the re-run, which lists everything again, may then deliver it.) *)
 IdempotentRerun ==
-  rerun => /\ doc = snap
+  rerun => /\ \A p \in Peers, d \in Docs : (Promised(d) /\ d \notin devd) => doc[p][d] = snap[p][d]
            /\ \A x \in dirs : \A m \in msgs[x] : m.st \in {"wanted", "sent"} => ~(Promised(m.d) /\ SameView(m.d))
 (* liveness: edits stop => eventually always converged (push-and-pull) *)
 AllSame == \A d \in Docs : SameView(d) \/ d \in devd
